@@ -114,6 +114,9 @@ def prelude(hs, name):
             raise HarnessError(name)
 
 
+OBSERVATIONS = ['repr', 'ver_str', 'dump-zinc', 'dump-json', 'eq']
+
+
 class GateSpec(H.Spec):
     name = 'gating'
 
@@ -127,6 +130,9 @@ class GateSpec(H.Spec):
             roots.append(['plain', v])
             for pre in PRELUDES:
                 roots.append(['plain-after', v, pre])
+            # a copy of a grid is a grid: gated on its own, whether or not the original is still alive
+            for how in ('deepcopy', 'deepcopy-original-dropped', 'copy'):
+                roots.append(['plain-copied', v, how])
             for k in KINDS:
                 roots.append(['ctor-meta', v, k])
                 roots.append(['ctor-colmeta', v, k])
@@ -146,6 +152,18 @@ class GateSpec(H.Spec):
         try:
             if kind in ('plain', 'plain-after'):
                 g = hs.Grid(columns=[('c', []), ('d', [])], **kw)
+            elif kind == 'plain-copied':
+                import copy
+                import gc
+                orig = hs.Grid(metadata={'p': 'plain'}, columns=[('c', [('cm', 'plain')]), ('d', [])], **kw)
+                orig.append({'c': 'plain'})
+                g = copy.copy(orig) if root[2] == 'copy' else copy.deepcopy(orig)
+                if root[2] == 'deepcopy-original-dropped':
+                    del orig
+                    gc.collect()
+                elif root[2] == 'deepcopy':
+                    model['original'] = orig
+                    model['original_version'] = str(orig.version)
             elif kind == 'ctor-meta':
                 g = hs.Grid(metadata={'x': mkval(hs, root[2])}, columns=[('c', []), ('d', [])], **kw)
             elif kind == 'ctor-colmeta':
@@ -171,6 +189,8 @@ class GateSpec(H.Spec):
 
     def ops(self, g, model):
         ops = []
+        for what in OBSERVATIONS:
+            ops.append(('observe', what))
         for p in PATHS:
             if p in ('setitem', 'setitem_undeclared') and len(g) == 0:
                 continue
@@ -183,6 +203,20 @@ class GateSpec(H.Spec):
     def apply(self, g, op):
         hs = self.hs
         p, k = op
+        if p == 'observe':
+            # reads: they change nothing the property can see, but may fill a memo (the state key holds every extra attribute)
+            if k == 'repr':
+                repr(g)
+            elif k == 'ver_str':
+                getattr(g, 'ver_str', None)
+                str(g.version)
+            elif k == 'dump-zinc':
+                H.outcome(hs.dump, g, mode=hs.MODE_ZINC)
+            elif k == 'dump-json':
+                H.outcome(hs.dump, g, mode=hs.MODE_JSON)
+            elif k == 'eq':
+                H.outcome(lambda: g == g)
+            return
         val = mkval(hs, k)
         if p == 'meta_set':
             g.metadata['x'] = val
@@ -223,6 +257,13 @@ class GateSpec(H.Spec):
         hs = self.hs
         p, k = op
         v = model['v']
+        if p == 'observe':
+            got = H.outcome(self.apply, g, op)
+            if hist is not None and got[0] == 'raise':
+                st.fail('observation-raised', {'path': 'observe', 'kind': k, 'version': vclass(v), 'exc': got[1]},
+                        {'root': hist[0], 'history': [list(o) for o in hist[1]]}, {'op': list(op)})
+                return False
+            return True
         before = reachable_v3(hs, g)
         got = H.outcome(self.apply, g, op)
         if hist is None:
@@ -269,6 +310,12 @@ class GateSpec(H.Spec):
                 st.fail('store-refused-although-version-allows-it', dict(sig, observed='ValueError'), case, {'declared': v})
                 return False
         broken = False
+        if 'original' in model:
+            orig = model['original']
+            if str(orig.version) != model['original_version'] or reachable_v3(hs, orig):
+                st.fail('store-into-a-copy-changed-the-original-grid', sig, case,
+                        {'declared': v, 'original_version_now': str(orig.version), 'original_3.0_data': reachable_v3(hs, orig)})
+                return False
         if places and pre3(v):
             st.fail('3.0-only-value-reachable-in-pre-3.0-grid', sig, case, {'declared': v, 'places': places})
             broken = True
@@ -334,7 +381,9 @@ class GateSpec(H.Spec):
 
     def key(self, g, model):
         hs = self.hs
-        return (model['v'], model['prelude'], str(g.version), tuple(reachable_v3(hs, g)), len(g), tuple(sorted(g.metadata.keys())),
+        extra = tuple(sorted((k, repr(x)[:120]) for k, x in vars(g).items()
+                             if k not in ('_version', '_version_given', 'metadata', 'column', '_row', '_index')))
+        return (model['v'], model['prelude'], extra, 'orig' in model or 'original' in model, str(g.version), tuple(reachable_v3(hs, g)), len(g), tuple(sorted(g.metadata.keys())),
                 tuple((c, tuple(sorted(m.keys())), type(m).__name__) for c, m in g.column.items()))
 
 
